@@ -4,6 +4,7 @@ import (
 	"bytes"
 	"crypto/rand"
 	"errors"
+	"fmt"
 	"math"
 	"math/big"
 	mrand "math/rand"
@@ -293,6 +294,56 @@ func randomFramesForDatagram(fb QUICFrameBuilder, idx int) *QUICRandomFrames {
 	return nil
 }
 
+// validate reports the configuration errors of the bounds. It does not depend on the CRYPTO
+// data, so a spec can be refused when it is dialed rather than when the datagram that uses
+// the entry is built, which may be after part of the flight has been sent. [UQUIC]
+func (qrf *QUICRandomFrames) validate() error {
+	if qrf.MinPING > qrf.MaxPING {
+		return errors.New("MinPING must be less than or equal to MaxPING")
+	}
+	if qrf.MinCRYPTO < 1 {
+		return errors.New("MinCRYPTO must be at least 1")
+	}
+	if qrf.MinCRYPTO > qrf.MaxCRYPTO {
+		return errors.New("MinCRYPTO must be less than or equal to MaxCRYPTO")
+	}
+	if qrf.MinPADDING < 1 && qrf.Length != 0 {
+		return errors.New("MinPADDING must be at least 1 if Length is not 0")
+	}
+	if qrf.MinPADDING > qrf.MaxPADDING && qrf.Length != 0 {
+		return errors.New("MinPADDING must be less than or equal to MaxPADDING if Length is not 0")
+	}
+	return nil
+}
+
+// validateFrameBuilder refuses, at dial, a randomizing frame builder whose bounds buildInternal
+// would refuse: every entry of a QUICMultiDatagramFrames, not only the one the first datagram
+// uses, so that the error cannot come after part of the ClientHello has been sent. Flight
+// builders are checked as a whole by planInitialFlight before the first packet. [UQUIC]
+func validateFrameBuilder(fb QUICFrameBuilder) error {
+	switch fb := fb.(type) {
+	case *QUICRandomFrames:
+		if fb != nil {
+			if err := fb.validate(); err != nil {
+				return fmt.Errorf("uquic: invalid QUICSpec: QUICRandomFrames: %w", err)
+			}
+		}
+	case *QUICMultiDatagramFrames:
+		if fb == nil {
+			return nil
+		}
+		if len(fb.PerDatagram) == 0 {
+			return errors.New("uquic: invalid QUICSpec: QUICMultiDatagramFrames: PerDatagram must not be empty")
+		}
+		for i := range fb.PerDatagram {
+			if err := fb.PerDatagram[i].validate(); err != nil {
+				return fmt.Errorf("uquic: invalid QUICSpec: QUICMultiDatagramFrames.PerDatagram[%d]: %w", i, err)
+			}
+		}
+	}
+	return nil
+}
+
 // Build ingests data from crypto frames without the crypto frame header
 // and returns the byte representation of all frames as specified in
 // the slice. Equivalent to BuildForDatagram(0, cryptoData, 0).
@@ -311,20 +362,8 @@ func (qrf *QUICRandomFrames) BuildForDatagram(_ int, cryptoData []byte, baseOffs
 // buildInternal is the shared implementation for Build and BuildForDatagram.
 func (qrf *QUICRandomFrames) buildInternal(cryptoData []byte, baseOffset uint64) (payload []byte, err error) {
 	// check all bounds
-	if qrf.MinPING > qrf.MaxPING {
-		return nil, errors.New("MinPING must be less than or equal to MaxPING")
-	}
-	if qrf.MinCRYPTO < 1 {
-		return nil, errors.New("MinCRYPTO must be at least 1")
-	}
-	if qrf.MinCRYPTO > qrf.MaxCRYPTO {
-		return nil, errors.New("MinCRYPTO must be less than or equal to MaxCRYPTO")
-	}
-	if qrf.MinPADDING < 1 && qrf.Length != 0 {
-		return nil, errors.New("MinPADDING must be at least 1 if Length is not 0")
-	}
-	if qrf.MinPADDING > qrf.MaxPADDING && qrf.Length != 0 {
-		return nil, errors.New("MinPADDING must be less than or equal to MaxPADDING if Length is not 0")
+	if err := qrf.validate(); err != nil {
+		return nil, err
 	}
 
 	var frameList QUICFrames = make([]QUICFrame, 0)
